@@ -26,7 +26,9 @@ use vkit::{par, Report, Stats, Tier, J};
 
 const KEYSPACES: [&str; 2] = ["a", "b"];
 const BIG_ID: u64 = (1u64 << 63) + 1; // above i64::MAX (sign conversions); sorts BEFORE 2 in little-endian byte order
-const IDS: [u64; 2] = [2, BIG_ID];
+/// The state-graph search uses the first two ids; the subset-purge block uses all four
+/// (numerically BIG_ID-as-i64 < 2 < 5 < 9 in SQLite, 2 < 5 < 9 < BIG_ID elsewhere).
+const IDS: [u64; 4] = [2, BIG_ID, 5, 9];
 
 fn stamp(i: u8) -> HLCTimestamp {
     // t1 < t2 < t3, distinct in seconds, fractional, counter and node
@@ -458,7 +460,7 @@ async fn observe<B: Backend>(b: &B, model: &Model) -> Vec<(&'static str, String)
             }
         }
         // multi_get, both orders, plus an id that never exists
-        for order in [vec![IDS[0], IDS[1], 99], vec![99, IDS[1], IDS[0]]] {
+        for order in [vec![IDS[0], IDS[1], 99, IDS[2], IDS[3]], vec![IDS[3], 99, IDS[1], IDS[0], IDS[2]]] {
             let mut want: Vec<(u64, HLCTimestamp, Vec<u8>)> = IDS
                 .iter()
                 .enumerate()
@@ -693,6 +695,69 @@ fn explore<B: Backend>(al: &Alphabet, max_depth: usize, max_states: usize) -> (S
     (total, capped)
 }
 
+/// Purging a subset of the tombstones of a keyspace removes exactly that subset: every
+/// assignment of four ids to {absent, live, tombstone} in keyspace a, and every non-empty
+/// subset of its tombstones handed to remove_tombstones; keyspace b holds one tombstone
+/// and one live row with the same ids which must stay. (The state-graph search has two ids,
+/// which cannot tell "these ids" from "everything between the smallest and the largest".)
+fn subset_purges<B: Backend>() -> Stats {
+    let mut work: Vec<(Vec<Call>, Call, Model)> = Vec::new();
+    for assign in 0..81u32 {
+        let kind = |i: u32| (assign / 3u32.pow(i)) % 3; // 0 absent, 1 live, 2 tombstone
+        let lives: Vec<(u8, u8, u8)> = (0..4).filter(|i| kind(*i) == 1).map(|i| (i as u8, 1, 0)).collect();
+        let tombs: Vec<u8> = (0..4).filter(|i| kind(*i) == 2).map(|i| i as u8).collect();
+        if tombs.is_empty() {
+            continue;
+        }
+        let mut path = vec![
+            Call::MultiTomb { ks: 1, docs: vec![(2, 0)] },
+            Call::Put { ks: 1, id: 0, pay: 1, ts: 0 },
+        ];
+        if !lives.is_empty() {
+            path.push(Call::MultiPut { ks: 0, docs: lives });
+        }
+        path.push(Call::MultiTomb { ks: 0, docs: tombs.iter().map(|i| (*i, 1)).collect() });
+        for mask in 1..(1u32 << tombs.len()) {
+            let ids: Vec<u8> = tombs.iter().enumerate().filter(|(n, _)| mask >> n & 1 == 1).map(|(_, i)| *i).collect();
+            // both argument orders for the two-element and larger subsets
+            let mut rev = ids.clone();
+            rev.reverse();
+            let mut m = Model::default();
+            for c in &path {
+                m.apply(c, false);
+            }
+            for ids in if rev != ids { vec![ids, rev] } else { vec![ids] } {
+                let call = Call::RemoveTombs { ks: 0, ids };
+                let mut nm = m.clone();
+                nm.apply(&call, false);
+                work.push((path.clone(), call, nm));
+            }
+        }
+    }
+    let parts = par::par_map(&work, |_, (path, call, expect)| {
+        let mut st = Stats::default();
+        // the set-up first (reported on its own if it is what fails), then the purge
+        let mut m = Model::default();
+        for i in 0..path.len() {
+            m.apply(&path[i], false);
+            if i + 1 == path.len() && !check_transition::<B>(&path[..i], &path[i], &m, &mut st) {
+                return st;
+            }
+        }
+        check_transition::<B>(path, call, expect, &mut st);
+        st.inc("subset_purges");
+        st
+    });
+    let mut total = Stats::default();
+    for st in parts {
+        total.merge(st);
+    }
+    if let Some((path, call, _)) = work.get(work.len() / 2) {
+        total.sample(|| path_json(B::NAME, path, call));
+    }
+    total
+}
+
 pub fn run(tier: Tier) -> i32 {
     let mut report = Report::new("C17", tier, "model_checking");
     let mut total = Stats::default();
@@ -730,9 +795,16 @@ pub fn run(tier: Tier) -> i32 {
         run_one("LMDB", explore::<Lmdb>(&tiny, 3, 1_000_000), "tiny alphabet + reopen, depth 3".into());
     }
 
+    total.merge(subset_purges::<MemBackend>());
+    total.merge(subset_purges::<SqliteMem>());
+    total.merge(subset_purges::<SqliteFile>());
+    total.merge(subset_purges::<Lmdb>());
+    let subset_purges = total.get("subset_purges");
     let states = total.get("states");
     let transitions = total.get("transitions");
     total.flush_into(&mut report);
+    report.cover("subset_purges", subset_purges);
+    report.guard(subset_purges >= 4 * 175, "subset-purge block did not run on all four backends");
     report.cover("states", states);
     report.cover("transitions", transitions);
     report.cover("traces_validated_against_impl", transitions);
